@@ -156,6 +156,7 @@ def run_check(pid, tier, replay=None, keep=False):
     try:
         phases = spec.get("phases") or [{}]
         merged = None
+        logs_to_copy = []
         for i, ph in enumerate(phases):
             if ph.get("tier") and ph["tier"] != tier:
                 continue
@@ -163,12 +164,14 @@ def run_check(pid, tier, replay=None, keep=False):
             pkg = ph.get("pkg", spec["pkg"])
             race = ph.get("race", False)
             overlay = ph.get("overlay", False)
-            log = os.path.join(logdir, "%s-%s-%s.log" % (pid, tier, name))
+            final_log = os.path.join(logdir, "%s-%s-%s.log" % (pid, tier, name))
+            log = os.path.join(tmp, "%s.log" % name)  # private to this run; copied to final_log below
             open(log, "w").close()
+            logs_to_copy.append((log, final_log))
             binp = os.path.join(tmp, "%s-%s.test" % (pid, name))
             if not build(pkg, binp, race, overlay, tmp, log):
                 sys.stdout.write(open(log).read()[-6000:])
-                print("BUILD-FAILED property=%s phase=%s log=%s" % (pid, name, log))
+                print("BUILD-FAILED property=%s phase=%s log=%s" % (pid, name, final_log))
                 print("INCONCLUSIVE property=%s why=build failed" % pid)
                 return 2
             env = goenv()
@@ -219,7 +222,7 @@ def run_check(pid, tier, replay=None, keep=False):
                     p = subprocess.CompletedProcess(p.args, 0)
             if p.returncode != 0 and rc == 0:
                 if p.returncode in (124, 137) or "SIGQUIT: quit" in text:
-                    out_lines.append("INCONCLUSIVE property=%s why=watchdog (%ss) fired in phase %s; log=%s" % (pid, tmo, name, log))
+                    out_lines.append("INCONCLUSIVE property=%s why=watchdog (%ss) fired in phase %s; log=%s" % (pid, tmo, name, final_log))
                     rc = 2
                 elif any(l.startswith("INCONCLUSIVE ") for l in text.splitlines()):
                     rc = 2
@@ -235,7 +238,7 @@ def run_check(pid, tier, replay=None, keep=False):
                     rc = 1
                 else:
                     sys.stdout.write(text[-4000:])
-                    out_lines.append("INCONCLUSIVE property=%s why=check process exited %d without a verdict; log=%s" % (pid, p.returncode, log))
+                    out_lines.append("INCONCLUSIVE property=%s why=check process exited %d without a verdict; log=%s" % (pid, p.returncode, final_log))
                     rc = 2
             # merge evidence
             pe = os.path.join(tmp, "ev", pid + ".json")
@@ -270,6 +273,11 @@ def run_check(pid, tier, replay=None, keep=False):
                 out_lines.append("INCONCLUSIVE property=%s why=%s" % (pid, err))
                 rc = 2
     finally:
+        for src, dst in locals().get("logs_to_copy", []):
+            try:
+                shutil.copyfile(src, dst)
+            except Exception:
+                pass
         if not keep:
             shutil.rmtree(tmp, ignore_errors=True)
     for l in out_lines:
